@@ -391,6 +391,8 @@ func checkC03(c *Ctx) {
 	r.Rule("R03a", "path template: for every configuration of the grid (base path × method path × config presence) the path literal reconstructed from each of the four emitting generators and the path evaluated from the OpenAPI generator are one and the same string", 40)
 	r.Rule("R03b", "verb: for every verb and for the defaulting cases (config absent, verb unset) all five generators publish the same verb, in the exact case their consumer needs (upper-case in code, lower-case key in OpenAPI)", 20)
 	r.Rule("R03c", "placement: all generators take the path-variable list and the query-field list from the shared accessors, announce every path variable, extract it from the segment where the agreed template has it, and put query fields on the wire for the same verbs", 20)
+	r.Rule("R03e", "the TS client fills a path variable from the request property of the field's JSON name, also for names with upper-case letters, digits or several underscores", 1)
+	tsPathPropertyNames(c, "R03e")
 	r.Rule("R03d", "one operation per RPC: processService visits every method exactly once, processMethod keys the path item by the evaluated path, fetches an existing item before assigning, and the verb→slot switch is the identity", 6)
 
 	// noise: verb-like literals that are there whatever the verb is
@@ -938,4 +940,49 @@ func clientServerPathAgreement(c *Ctx, rid string) {
 		r.CheckD(a == b && a != "" && !strings.Contains(a, " | "), rid, "Go client and Go server path: "+s.String(), cli.Pos,
 			fmt.Sprintf("%s: the Go server registers %q, the Go client requests %q: the call does not reach the handler of its RPC", s, a, b), map[string]any{"server": a, "client": b})
 	}
+}
+
+// tsPathPropertyNames — R03e / R08k. The TS client fills a path variable from the request property whose name it derives
+// from the variable's (proto field) name with tscommon.SnakeToLowerCamel; the request interface declares the property under
+// the field's JSON name, which protoc derives by dropping each underscore and upper-casing the letter after it — nothing else
+// changes. The helper is interpreted on names with upper-case letters, digits and several underscores and must agree.
+func tsPathPropertyNames(c *Ctx, rid string) {
+	r := c.R
+	fn := c.P.Func("internal/tscommon", "SnakeToLowerCamel")
+	if fn == nil {
+		r.Unres(rid, "tscommon.SnakeToLowerCamel", "", "not found")
+		return
+	}
+	pos := c.P.Pos(c.P.Decls[fn].Pos())
+	prev := c.W.Concrete
+	c.W.Concrete = true
+	defer func() { c.W.Concrete = prev }()
+	var pname string
+	for _, f := range c.P.Decls[fn].Type.Params.List {
+		for _, n := range f.Names {
+			pname = n.Name
+		}
+	}
+	var bad []string
+	names := []string{"user_id", "id", "memberId", "org_ID", "a_b_c", "page_2_size", "URL", "x_API_key"}
+	for _, n := range names {
+		run := c.W.NewRun(map[string]int{}, false)
+		run.InlineAll, run.FollowSlices = true, true
+		run.CallHook = c.cdescHook
+		run.StartArgs(fn, map[string]Val{pname: constStr(n)})
+		sv, ok := run.Result.(VStr)
+		got, isConst := "", false
+		if ok {
+			got, isConst = sv.isConst()
+		}
+		if !ok || !isConst || len(run.Used) > 0 {
+			r.Undec(rid, "SnakeToLowerCamel("+n+")", pos, fmt.Sprintf("not evaluated to a constant (open decisions %v)", usedKeys(run)))
+			return
+		}
+		if want := snakeToCamelJSON(n); got != want {
+			bad = append(bad, fmt.Sprintf("%s → %s (the declared property is %s)", n, got, want))
+		}
+	}
+	r.CheckD(len(bad) == 0, rid, "the TS name of a path variable's request property is the field's JSON name", pos,
+		"tscommon.SnakeToLowerCamel, which the TS client uses to pick the request property that fills a path variable, disagrees with the JSON name the interface declares: "+strings.Join(bad, "; ")+" — the property read is undefined, the request goes to …/undefined/… and reaches no route the other generators publish", map[string]any{"names": names})
 }
